@@ -87,6 +87,17 @@ fn run<K: Raw>(req: &str, cont: &str, seq: &[u8], rest: &[&str]) -> String {
             "6" => lmer_req::<K, [u64; 6]>(seq, req, rest),
             _ => panic!("bad n"),
         },
+        "grown" => {
+            // an owned copy of a (possibly reverse-complemented) view, grown afterwards: `grown.a.b.r.tail.how`
+            let d = DnaString::from_bytes(seq);
+            let s0 = d.slice(f[1].parse().unwrap(), f[2].parse().unwrap());
+            let s1 = if f[3] == "1" { s0.rc() } else { s0 };
+            let mut o = s1.to_owned();
+            let tail = digits(f[4]);
+            match f[5] { "push" => { for b in &tail { o.push(*b); } } "ext" => o.extend(tail.iter().copied()), _ => { let mut packed = vec![0u8; (tail.len() + 3) / 4];
+                for (i, b) in tail.iter().enumerate() { packed[i / 4] |= b << (2 * (i % 4)); } o.push_bytes(&packed, tail.len()); } }
+            on_vmer::<K, _>(&o, req, rest)
+        }
         "bytes" => on_vmer::<K, _>(&DnaBytes(seq.to_vec()), req, rest),
         "dslice" => on_vmer::<K, _>(&DnaSlice(seq), req, rest),
         _ => panic!("bad container"),
@@ -130,7 +141,7 @@ const KTYPES: [(&str, usize); 16] = [("V128K41", 41), ("Kmer2", 2), ("Kmer4", 4)
 
 fn container(rng: &mut Rng, k: usize, allow_bytes: bool) -> (String, Vec<u8>, usize) {
     // returns (spec, backing sequence, length of the viewed sequence)
-    let pick = rng.below(if allow_bytes { 7 } else { 5 });
+    let pick = rng.below(if allow_bytes { 8 } else { 5 });
     let len = match rng.below(6) {
         0 => rng.below(k + 1),                                  // shorter than / equal to K
         1 => *rng.pick(&[31usize, 32, 33, 63, 64, 65, 95, 96, 97, 127, 128, 129, 160, 191, 192, 193, 256, 257, 300]),
@@ -166,6 +177,16 @@ fn container(rng: &mut Rng, k: usize, allow_bytes: bool) -> (String, Vec<u8>, us
         5 => {
             let seq: Vec<u8> = (0..len).map(|_| rng.below(4) as u8).collect();
             ("bytes".into(), seq, len)
+        }
+        7 => {
+            // `to_owned` of a view (start often on a block boundary, end inside a block, non-A bases behind it), then growth
+            let a = if rng.chance(2, 3) { 32 * rng.below(3) } else { rng.below(40) };
+            let vl = if rng.chance(1, 4) { 256 + rng.below(80) } else { rng.below(70) };
+            let pad = rng.below(40);
+            let seq: Vec<u8> = (0..a + vl + pad).map(|_| if rng.chance(1, 2) { 3 } else { rng.below(4) as u8 }).collect();
+            let tl = k + rng.below(40);
+            let tail: Vec<u8> = (0..tl).map(|_| rng.below(4) as u8).collect();
+            (format!("grown.{}.{}.{}.{}.{}", a, a + vl, rng.chance(1, 4) as u8, show_digits(&tail), *rng.pick(&["push", "ext", "pb"])), seq, vl + tl)
         }
         _ => {
             let seq: Vec<u8> = (0..len).map(|_| rng.below(4) as u8).collect();
